@@ -44,6 +44,20 @@ def apply_contract(ip, c, info, args, kwargs, st, node):
         goal = ip.spec_bool(cl.src, st)
         ctx.oblige(st, f'{tag}:{cl.label}', 'pre@callsite', 'route', goal, line, note=cl.src)
         st.assume(goal)
+    ac = ip.active_contract
+    if ac is not None and c.key in getattr(ac, 'at_calls', {}):
+        # the caller's own statement about the arguments it passes (a property of the caller, proved here)
+        caller_frame = st.stack[depth - 2] if depth >= 2 else None
+        extra = {}
+        if caller_frame is not None:
+            cf = st.frames[caller_frame] if not hasattr(caller_frame, 'vars') else caller_frame
+            extra = {f'caller_{k}': v for k, v in cf.vars.items()}
+        for cl in ac.at_calls[c.key]:
+            goal = ip.spec_bool(cl.src, st, extra=extra)
+            o = ctx.oblige(st, f'{caller}#call-args:{info.qualname}@L{line}:{cl.label}', 'call-args', cl.role, goal, line,
+                           note=cl.src)
+            if o is not None:
+                o.clause = cl
     pre = st.clone()
     saved_old = st.old
     # havoc the modifies set
